@@ -14,7 +14,7 @@ VARIABLE hist
 \* (the dependence on hist keeps TLC from evaluating the draw once, as a constant)
 \* Values that make a load fail are drawn with weight 1, all others with weight GoodWeight, so that a useful
 \* share of the sampled configurations is accepted and goes on to housekeeping and reloads.
-Failing == {"bad", "badonly", "missing", "garbage", "malformed", "badgen", "syntax", "wrongtype", "unreadable"}
+Failing == {"bad", "badfirst", "badonly", "missing", "garbage", "malformed", "badgen", "syntax", "wrongtype", "unreadable"}
 RE(S) == RandomElement(IF Len(hist) >= 0
                          THEN ((S \ Failing) \X (1..GoodWeight)) \cup ((S \cap Failing) \X {1})
                          ELSE {})[1]
